@@ -209,7 +209,22 @@ func (r *msetRequest) Split() []*simpleRequest {
 func (r *msetRequest) onChildDone(simpleReq *simpleRequest) {
 	wait := r.childWait.Dec()
 	if wait == 0 {
+		r.setResponse()
+	}
+}
+
+func (r *msetRequest) setResponse() {
+	// NOTE: Must not answer OK when some of the keys are not set.
+	errCount := 0
+	for _, child := range r.children {
+		if child.Response().Type == Error {
+			errCount++
+		}
+	}
+	if errCount == 0 {
 		r.raw.SetResponse(respOK)
+	} else {
+		r.raw.SetResponse(newError(fmt.Sprintf("finished with %d error(s)", errCount)))
 	}
 }
 
